@@ -889,7 +889,7 @@ fn parse_struct_literal_fields(
 
         let expr = parse_expression(tokens, id_gen, diagnostics);
 
-        if tokens.idx == start_idx {
+        if tokens.idx <= start_idx {
             // We haven't made forward progress, the syntax must be
             // very broken. Give up on this struct, consuming until
             // the closing brace.
@@ -1530,6 +1530,7 @@ fn parse_enum_body(
             break;
         }
 
+        let start_idx = tokens.idx;
         let mut variant = parse_variant(tokens, id_gen, diagnostics);
 
         if let Some(token) = tokens.peek() {
@@ -1537,6 +1538,13 @@ fn parse_enum_body(
                 variant.comma = Some(token.position);
                 variants.push(variant);
                 tokens.pop();
+
+                if tokens.idx <= start_idx {
+                    // No forward progress (a missing variant name at
+                    // the end of the file rewinds the token stream),
+                    // so stop here.
+                    break;
+                }
             } else if token.text == "}" {
                 variants.push(variant);
                 break;
@@ -1834,6 +1842,7 @@ fn parse_type_arguments(
                 break token.position;
             }
         }
+        let start_idx = tokens.idx;
         let arg = parse_type_hint(tokens, id_gen, diagnostics);
         let arg_pos = arg.position.clone();
         args.push(arg);
@@ -1841,6 +1850,13 @@ fn parse_type_arguments(
         if let Some(token) = tokens.peek() {
             if token.text == "," {
                 tokens.pop();
+
+                if tokens.idx <= start_idx {
+                    // No forward progress (a missing type name at the
+                    // end of the file rewinds the token stream), so
+                    // stop here.
+                    break arg_pos;
+                }
             } else if token.text == ">" {
                 break token.position;
             } else {
@@ -1897,6 +1913,7 @@ fn parse_type_params(
             break;
         }
 
+        let start_idx = tokens.idx;
         let arg = parse_type_symbol(tokens, id_gen, diagnostics);
         let arg_pos = arg.position.clone();
         params.push(arg);
@@ -1904,6 +1921,13 @@ fn parse_type_params(
         if let Some(token) = tokens.peek() {
             if token.text == "," {
                 tokens.pop();
+
+                if tokens.idx <= start_idx {
+                    // No forward progress (a missing type name at the
+                    // end of the file rewinds the token stream), so
+                    // stop here.
+                    break;
+                }
             } else if token.text == ">" {
                 break;
             } else {
@@ -1994,10 +2018,11 @@ fn parse_tuple_type_hint(
             tokens.pop();
         }
 
-        assert!(
-            tokens.idx > start_idx,
-            "The parser should always make forward progress."
-        );
+        if tokens.idx <= start_idx {
+            // No forward progress (a missing type name at the end of
+            // the file rewinds the token stream), so stop here.
+            break;
+        }
     }
 
     let close_paren = require_token(tokens, diagnostics, ")");
@@ -2026,7 +2051,13 @@ fn parse_type_hint(
     }
 
     let sym = parse_type_symbol(tokens, id_gen, diagnostics);
-    let (args, close_pos) = parse_type_arguments(tokens, id_gen, diagnostics);
+    // A missing type name has no type arguments. Parsing them anyway
+    // recurses forever on e.g. `List<` at the end of the file.
+    let (args, close_pos) = if sym.is_placeholder() {
+        (vec![], None)
+    } else {
+        parse_type_arguments(tokens, id_gen, diagnostics)
+    };
 
     let position = match close_pos {
         Some(close_pos) => Position::merge(&sym.position, &close_pos),
@@ -2182,10 +2213,11 @@ fn parse_parameters(
             break;
         }
 
-        assert!(
-            tokens.idx > start_idx,
-            "The parser should always make forward progress."
-        );
+        if tokens.idx <= start_idx {
+            // No forward progress (a missing parameter name at the
+            // end of the file rewinds the token stream), so stop here.
+            break;
+        }
     }
 
     let close_paren = require_token(tokens, diagnostics, ")");
@@ -2811,10 +2843,11 @@ fn parse_let_destination(
                 require_token(tokens, diagnostics, ",");
             }
 
-            assert!(
-                tokens.idx > start_idx,
-                "The parser should always make forward progress."
-            );
+            if tokens.idx <= start_idx {
+                // No forward progress (a missing name at the end of
+                // the file rewinds the token stream), so stop here.
+                break;
+            }
         }
 
         let mut seen: FxHashMap<&String, &Position> = FxHashMap::default();
